@@ -21,6 +21,7 @@ import (
 	"verif/lww"
 	"verif/mc"
 	"verif/sched/drv"
+	fgate "verif/sched/gate"
 	"verif/sched/vrt"
 )
 
@@ -941,6 +942,119 @@ var aggressive = map[string]interface{}{"scorchMergePlanOptions": bx.AggressiveM
 var nomerge = map[string]interface{}{"scorchMergePlanOptions": bx.NoMergePlan}
 
 // Scenarios of C04.
+// ---- gated workload families (word x gate are environment choices of the explorer): every batch in
+// its own client thread, started when everything the previous one set in motion has settled; after
+// every step a reader is opened — it must show one whole-batch state S_q with acknowledged <= q <=
+// submitted — and KEPT; at the end every kept reader must still show exactly its state.
+func bodyGatedFamily(conf map[string]interface{}, unsafe bool, words []string) func(c *drv.Ctx) {
+	menu := fgate.Menu()
+	return func(c *drv.Ctx) {
+		word := words[vrt.Choose(len(words), "workload")]
+		spec := menu[vrt.Choose(len(menu), "gate")]
+		wl := lww.BuildWord(word)
+		model := func(q int) *lww.Model {
+			m := lww.New()
+			for j := 0; j < q; j++ {
+				m.Apply(wl[j])
+			}
+			return m
+		}
+		var idx bleve.Index
+		vrt.Free(func() {
+			cf := bx.CopyConfig(conf)
+			if cf == nil {
+				cf = map[string]interface{}{}
+			}
+			cf["eventCallbackName"] = fgate.Name
+			if unsafe {
+				cf["unsafe_batch"] = true
+			}
+			var err error
+			idx, err = bleve.NewUsing(c.Dir+"/idx", bleve.NewIndexMapping(), scorch.Name, scorch.Name, cf)
+			if err != nil {
+				panic(err)
+			}
+			vrt.WaitIdle()
+		})
+		g := fgate.Arm(spec)
+		defer g.Disarm()
+		adv, _ := idx.Advanced()
+		returned, submitted := 0, 0
+		type heldT struct {
+			r    index.IndexReader
+			q    int
+			what string
+		}
+		var held []heldT
+		view := func(what string) {
+			r, err := adv.Reader()
+			if err != nil {
+				c.Fail("error:reader", "Reader: %v", err)
+				return
+			}
+			v, _ := r.GetInternal([]byte("seq"))
+			q := 0
+			if v != nil {
+				q, _ = strconv.Atoi(string(v))
+			}
+			if q > submitted || q < returned {
+				c.Fail("stale-read:reader", "%s: reader shows batch %d, expected between %d (returned) and %d (submitted)", what, q, returned, submitted)
+			} else if bad := model(q).CheckReader(r, lww.FamilyIDs, []string{"seq"}); len(bad) > 0 {
+				c.Fail("torn-view:reader", "%s: one reader shows batch %d (internal key) but: %s", what, q, strings.Join(bad, "; "))
+			}
+			held = append(held, heldT{r, q, what})
+		}
+		var wg vrt.WaitGroup
+		for j := 1; j <= len(wl); j++ {
+			j := j
+			wg.Add(1)
+			vrt.Go(func() {
+				defer wg.Done()
+				if j > submitted {
+					submitted = j
+				}
+				if err := lww.ExecBatch(idx, wl[j-1]); err != nil {
+					c.Fail("error:batch", "Batch %d: %v", j, err)
+					return
+				}
+				if j > returned {
+					returned = j
+				}
+			})
+			vrt.WaitIdle()
+			view(fmt.Sprintf("after-step-%d", j))
+			if g.Step() {
+				vrt.WaitIdle()
+				view(fmt.Sprintf("after-gate-opened-%d", j))
+			}
+		}
+		parked := g.Was
+		g.Open()
+		wg.Wait()
+		vrt.WaitIdle()
+		view("settled")
+		for _, h := range held {
+			if bad := model(h.q).CheckReader(h.r, lww.FamilyIDs, []string{"seq"}); len(bad) > 0 {
+				c.Fail("reader-changed", "the reader opened at %s showed batch %d; re-read at the end: %s", h.what, h.q, strings.Join(bad, "; "))
+			}
+			h.r.Close()
+		}
+		if parked {
+			c.Count("executions_in_which_the_gate_parked_a_background_thread", 1)
+		}
+		c.Observe(fmt.Sprintf("wl=%s gate=%s parked=%v", word, spec.Label, parked))
+		c.Count("family_words_x_gates_run", 1)
+		vrt.Free(func() {
+			if bad := model(len(wl)).Check(idx, lww.FamilyIDs, []string{"seq"}); len(bad) > 0 {
+				c.Fail("final-state", "after all batches: %s", strings.Join(bad, "; "))
+			}
+			if err := idx.Close(); err != nil {
+				c.Fail("error:close", "Close: %v", err)
+			}
+		})
+	}
+}
+
 func Scenarios() []drv.Scenario {
 	d1 := []drv.Phase{{Bound: 1}}
 	d1r := []drv.Phase{{Bound: 1, Filter: "restricted"}}
@@ -956,7 +1070,14 @@ func Scenarios() []drv.Scenario {
 			same = append(same, sc)
 		}
 	}
+	d0 := []drv.Phase{{Bound: 0}}
+	words := lww.GatedWords(mc.Tier())
+	gdoc := "gated workload family: every word over the batch-shape alphabet x every member of the gate menu (none; merger parked before introducing a merge / before planning, persister parked after a round / before its purge; 1st or 2nd occurrence; reopened after 1 or 2 further batches); a reader after every step, all kept and re-read at the end"
 	return append([]drv.Scenario{
+		{Name: "G1-gated-family-safe-default-merges", Doc: gdoc, Body: bodyGatedFamily(nil, false, words), Quick: d0, Thorough: d0},
+		{Name: "G2-gated-family-safe-partial-merges", Doc: gdoc, Body: bodyGatedFamily(map[string]interface{}{"scorchMergePlanOptions": bx.PartialMergePlan}, false, words), Quick: d0, Thorough: d0},
+		{Name: "G3-gated-family-unsafe-2-persister-workers", Doc: gdoc, Body: bodyGatedFamily(unsafe2, true, words), Quick: d0, Thorough: d0},
+		{Name: "G4-gated-family-unsafe-nomerge", Doc: gdoc, Body: bodyGatedFamily(nomerge, true, words), Quick: d0, Thorough: d0},
 		{Name: "S1-two-writers-reader", Doc: "2 writers × 2 batches ∥ reader with a held index reader; scorch on disk, default options",
 			Body: body(cfg{engine: "scorch", writers: 2, batches: 2}), Quick: d1r,
 			Thorough: []drv.Phase{{Bound: 1}, {Bound: 2, Filter: "restricted"}}},
